@@ -185,3 +185,34 @@ Lemma gen_pm_consts :
 Proof. unfold gen_pm_eps, gen_pm_power, gen_th_eps, gen_th_power, pm_eps; rops. repeat split; reflexivity. Qed.
 Lemma gen_grav_pos : 0 < @gen_grav_constant R Rops.
 Proof. unfold gen_grav_constant, ofrac; rops. lra. Qed.
+
+(* C04, inertial loads: on the modelled half (every node but the root / centre node) the distributed fuel-weight loads of the half
+   model are those of the full-span model of the mirrored wing - half the fuel INCLUDING the reserve in half the tank volume -
+   and the structural-weight loads are the same element by element. *)
+Lemma dist_loads_left nodes ne nf (w zm w' zm' : nat -> R) j c : (j < ne)%nat -> (ne <= nf)%nat ->
+  (forall e, (e < ne)%nat -> w' e = w e /\ zm' e = zm e) ->
+  dist_loads nodes nf w' zm' j c = dist_loads nodes ne w zm j c.
+Proof.
+  intros Hj Hn H. unfold dist_loads.
+  replace (j <? nf)%nat with true by (symmetry; apply Nat.ltb_lt; lia).
+  replace (j <? ne)%nat with true by (symmetry; apply Nat.ltb_lt; lia).
+  destruct (H j Hj) as [E1 E2]. rewrite E1, E2.
+  destruct (Nat.ltb_spec 0 j) as [H0|H0].
+  - destruct (H (j - 1)%nat ltac:(lia)) as [E3 E4]. rewrite E3, E4. reflexivity.
+  - unfold iff0. destruct c as [|[|[|[|[|c]]]]]; reflexivity.
+Qed.
+
+Theorem fuel_loads_half_is_left_half_of_full nodes ne g lf fm res (vols : nat -> R) j c :
+  (j < ne)%nat -> rsum ne vols <> 0 -> rsum (2 * ne) vols = 2 * rsum ne vols ->
+  fuel_weight_loads nodes (2 * ne) false g lf fm res vols j c = fuel_weight_loads nodes ne true g lf fm res vols j c.
+Proof.
+  intros Hj Hs Hm. unfold fuel_weight_loads. apply dist_loads_left; [exact Hj | lia |].
+  intros e He. unfold fl_zm, fl_weight, fuel_total, symhalf, o2. rops. rewrite Hm.
+  assert (E : vols e * ((fm + res) * g * lf) / (2 * rsum ne vols) = vols e * ((fm + res) * g * lf / 2) / rsum ne vols) by (field; exact Hs).
+  split; [exact E | rewrite E; reflexivity].
+Qed.
+
+Theorem struct_weight_loads_half_is_left_half_of_full nodes ne nf g lf (em : nat -> R) j c :
+  (j < ne)%nat -> (ne <= nf)%nat ->
+  struct_weight_loads nodes nf g lf em j c = struct_weight_loads nodes ne g lf em j c.
+Proof. intros Hj Hn. unfold struct_weight_loads. apply dist_loads_left; [exact Hj | exact Hn | intros; split; reflexivity]. Qed.
